@@ -58,6 +58,7 @@ type scenario struct {
 	snapshot bool
 	restore  bool
 	left     bool // leftovers of an older link incarnation in the reserved namespace
+	restart  int  // -1, or the link (0 / 1) that is stopped and started again while the loop runs
 	chunk    int  // value-chunking threshold of the snapshot parser (0 = default 16 MiB): big values travel in several bins
 	ops      [2][]op
 	data     [2][]*rdbgen.Entry
@@ -343,13 +344,16 @@ func (cc *cliConn) do(args ...[]byte) {
 // ---------------------------------------------------------------------------
 
 type linkRun struct {
-	idx     int
-	ro      *syncer.RedisOutput
-	feed    *hx.FeedReader
-	fed     int
-	done    chan error
-	rdbErr  error
-	started bool
+	idx         int
+	ro          *syncer.RedisOutput
+	mu          sync.Mutex // feed and fed change when the link is restarted
+	feed        *hx.FeedReader
+	fed         int
+	stop        context.CancelFunc
+	restartNote string
+	done        chan error
+	rdbErr      error
+	started     bool
 }
 
 func newOutput(sc *scenario, i int, target *fakeredis.Server) *syncer.RedisOutput {
@@ -467,7 +471,29 @@ func runScenario(sc *scenario, tr *hx.Trace) (units int) {
 				startErr[i] = fmt.Sprintf("unexpected start point %+v", sp)
 			}
 			lk.started = true
-			lk.done <- lk.ro.Send(ctx, hx.NewChanReader(lk.feed, true, runIDs[i], sc.base[i], -1))
+			lctx, lcancel := context.WithCancel(ctx)
+			lk.stop = lcancel
+			err = lk.ro.Send(lctx, hx.NewChanReader(lk.feed, true, runIDs[i], sc.base[i], -1))
+			if sc.restart == i && ctx.Err() == nil && lctx.Err() != nil {
+				// the link was stopped while the loop runs: a new instance resumes from what the target holds
+				ro2 := newOutput(sc, i, target)
+				sp2, err2 := ro2.StartPoint(ctx, []string{runIDs[i]})
+				repl, _ := sites[i].ReplCopy()
+				if err2 != nil || sp2.RunId != runIDs[i] || sp2.Offset < sc.base[i] || sp2.Offset > sc.base[i]+int64(len(repl)) {
+					lk.restartNote = fmt.Sprintf("restart: start point %+v err=%v", sp2, err2)
+					lk.done <- fmt.Errorf("%s", lk.restartNote)
+					return
+				}
+				lk.mu.Lock()
+				lk.ro = ro2
+				lk.feed = hx.NewFeedReader()
+				lk.fed = int(sp2.Offset - sc.base[i])
+				f2 := lk.feed
+				lk.mu.Unlock()
+				lk.restartNote = fmt.Sprintf("restarted at %d", sp2.Offset-sc.base[i])
+				err = ro2.Send(ctx, hx.NewChanReader(f2, true, runIDs[i], sp2.Offset, -1))
+			}
+			lk.done <- err
 		}()
 	}
 	// pumps: the stream of site i goes to link i
@@ -480,15 +506,31 @@ func runScenario(sc *scenario, tr *hx.Trace) (units int) {
 			defer pumpWG.Done()
 			for {
 				repl, _ := sites[i].ReplCopy()
+				links[i].mu.Lock()
 				if len(repl) > links[i].fed {
 					links[i].feed.Feed(repl[links[i].fed:])
 					links[i].fed = len(repl)
 				}
+				links[i].mu.Unlock()
 				select {
 				case <-stopPump:
 					return
 				case <-time.After(150 * time.Microsecond):
 				}
+			}
+		}()
+	}
+	if sc.restart >= 0 {
+		go func() {
+			lk := links[sc.restart]
+			r := hx.NewRng(uint64(sc.id) * 31)
+			dl := time.Now().Add(3 * time.Second)
+			for (!lk.started || lk.stop == nil) && time.Now().Before(dl) {
+				time.Sleep(200 * time.Microsecond)
+			}
+			time.Sleep(time.Duration(r.Intn(3000)) * time.Microsecond)
+			if lk.stop != nil {
+				lk.stop()
 			}
 		}()
 	}
@@ -587,7 +629,12 @@ func runScenario(sc *scenario, tr *hx.Trace) (units int) {
 	lastChange := time.Now()
 	for time.Now().Before(settleDeadline) && !ended() {
 		cur := [4]int{sites[0].ReplLen(), sites[1].ReplLen(), len(sites[0].LogCopy()), len(sites[1].LogCopy())}
-		if cur != last || !links[0].feed.Drained() || !links[1].feed.Drained() || links[0].fed != cur[0] || links[1].fed != cur[1] {
+		drained := func(k int) bool {
+			links[k].mu.Lock()
+			defer links[k].mu.Unlock()
+			return links[k].feed.Drained() && links[k].fed == cur[k]
+		}
+		if cur != last || !drained(0) || !drained(1) {
 			last = cur
 			lastChange = time.Now()
 		} else if time.Since(lastChange) > 300*time.Millisecond {
@@ -619,7 +666,8 @@ func runScenario(sc *scenario, tr *hx.Trace) (units int) {
 	wg.Wait()
 
 	// ---- trace
-	tr.Emit(map[string]interface{}{"ev": "Reset", "id": sc.id, "mode": sc.mode, "snapshot": sc.snapshot, "restore": sc.restore, "wrap1": sc.wrap1, "leftovers": sc.left, "chunk": sc.chunk})
+	tr.Emit(map[string]interface{}{"ev": "Reset", "id": sc.id, "mode": sc.mode, "snapshot": sc.snapshot, "restore": sc.restore, "wrap1": sc.wrap1, "leftovers": sc.left, "chunk": sc.chunk, "restart": sc.restart >= 0,
+		"restartNote": links[0].restartNote + links[1].restartNote})
 	for i := 0; i < 2; i++ {
 		for _, u := range clientUnits[i] {
 			tr.Emit(map[string]interface{}{"ev": "Client", "site": i, "cmds": u.cmds, "txn": u.txn})
@@ -779,6 +827,10 @@ func main() {
 		sc := &scenario{id: s + 1, mode: []string{"sync", "pipeline", "parallel"}[r.Intn(3)], wrap1: r.Chance(30), snapshot: r.Chance(50), restore: r.Chance(50), left: r.Chance(60)}
 		if sc.snapshot && r.Chance(50) {
 			sc.chunk = 30 + r.Intn(60)
+		}
+		sc.restart = -1
+		if r.Chance(30) {
+			sc.restart = r.Intn(2)
 		}
 		for i := 0; i < 2; i++ {
 			sc.ops[i] = genOps(r, i, r.Intn(*maxOps+1))
